@@ -385,6 +385,8 @@ impl Scenario for C03S {
         let mut lin: std::collections::BTreeMap<i64, (i64, LState)> = Default::default(); // hid -> (chan, state)
         let mut droprx: std::collections::BTreeMap<i64, (u64, u64)> = Default::default(); // chan -> (inv, ret)
         let mut pending_inv: std::collections::BTreeMap<(u16, &'static str), u64> = Default::default();
+        // the channel whose liveness an unfinished operation leaves open (None = cannot tell: any)
+        let mut pending_chan: std::collections::BTreeMap<(u16, &'static str), Option<i64>> = Default::default();
         let mut travelled = 0u64;
         let mut embed_done: std::collections::BTreeSet<i64> = Default::default();
         let mut late: std::collections::BTreeSet<i64> = Default::default();
@@ -471,10 +473,14 @@ impl Scenario for C03S {
                 },
                 "drop.inv" | "droprx.inv" => {
                     pending_inv.insert((e.tid, e.op), e.seq);
+                    // a handle's drop concerns its own channel; dropping a carrier's receiver concerns
+                    // whatever is in flight inside it
+                    pending_chan.insert((e.tid, e.op), if e.op == "drop.inv" { Some(e.b) } else { None });
                 },
                 "embed.inv" => {
                     // from here on the handle is alive in some form (sender's hands or in flight)
                     pending_inv.insert((e.tid, e.op), e.seq);
+                    pending_chan.insert((e.tid, e.op), lin.get(&e.c).map(|l| l.0));
                     // the sender's own copy lives until its send returns, whatever the receiver does
                     possible_until.insert(e.c, u64::MAX);
                     if let Some(l) = lin.get_mut(&e.c) {
@@ -547,7 +553,7 @@ impl Scenario for C03S {
         }
         // a drop/droprx/embed that was invoked but never returned (its thread is blocked or the
         // run ended): the handle may or may not be dead -> possibly dead from inv on, never certainly
-        let unfinished: Vec<(u16, &'static str, u64)> = pending_inv.iter().map(|(k, v)| (k.0, k.1, *v)).collect();
+        let unfinished: Vec<(u16, &'static str, u64, Option<i64>)> = pending_inv.iter().map(|(k, v)| (k.0, k.1, *v, pending_chan.get(k).copied().flatten())).collect();
         // messages per channel: (mid, send.inv, send.ret or None, ok)
         let mut msgs: Vec<(i64, i64, u64, Option<u64>, bool)> = vec![]; // mid, chan, inv, ret, ok
         for e in evs {
@@ -563,7 +569,36 @@ impl Scenario for C03S {
             }
         }
         let mut judged = 0u64;
-        for &c in &observed {
+        // receives made by actors on the carrier channels they hold (extract) are observations too:
+        // translate them into the observers' vocabulary and judge those channels by the same rules
+        let mut with_actor_obs: Vec<hist::Ev> = evs.to_vec();
+        let mut actor_chans: Vec<u32> = vec![];
+        for e in evs.iter().filter(|e| e.op.starts_with("extract.")) {
+            let (op, chan, mid): (&'static str, i64, i64) = match e.op {
+                "extract.inv" => ("obs.inv", e.a, 0),
+                "extract.got" | "extract.data" => ("obs.data", e.b, e.a),
+                "extract.empty" => ("obs.empty", e.a, 0),
+                "extract.closed" => ("obs.closed", e.a, 0),
+                "extract.err" => ("obs.err", e.a, 0),
+                _ => continue,
+            };
+            if observed.contains(&(chan as u32)) {
+                continue;
+            }
+            if !actor_chans.contains(&(chan as u32)) {
+                actor_chans.push(chan as u32);
+            }
+            let mut x = e.clone();
+            x.op = op;
+            x.a = chan;
+            x.b = mid;
+            with_actor_obs.push(x);
+        }
+        with_actor_obs.sort_by_key(|e| e.seq);
+        let evs = &with_actor_obs[..];
+        let all_judged: Vec<u32> = observed.iter().copied().chain(actor_chans.iter().copied()).collect();
+        for &c in &all_judged {
+            let by_actor = actor_chans.contains(&c);
             let c = c as i64;
             // delivered set over time
             let mut delivered: Vec<(i64, u64)> = vec![]; // (mid, seq)
@@ -630,7 +665,7 @@ impl Scenario for C03S {
                             }
                         }
                         // (b) nothing can exist any more: must say disconnected, not empty
-                        if !possibly_alive_at(inv_seq) && !unfinished.iter().any(|u| u.2 < inv_seq) {
+                        if !possibly_alive_at(inv_seq) && !unfinished.iter().any(|u| u.2 < inv_seq && u.3.map(|ch| ch == c).unwrap_or(true)) {
                             out.viol("empty-when-disconnected:try_recv", format!("channel {} reported empty at #{} although every sender handle had been dropped before the call began", c, e.seq));
                         }
                     },
@@ -640,11 +675,14 @@ impl Scenario for C03S {
                     _ => {},
                 }
             }
+            if by_actor {
+                continue;
+            }
             // blocked observer at quiescence
             if let Some(b) = blocked.iter().find(|b| b.label == format!("observer{}", c)) {
                 judged += 1;
                 let last = evs.last().map(|e| e.seq).unwrap_or(0);
-                let any_unfinished = !unfinished.is_empty();
+                let any_unfinished = unfinished.iter().any(|u| u.3.map(|ch| ch == c).unwrap_or(true));
                 if !possibly_alive_at(last) && !any_unfinished {
                     out.viol("hang:recv", format!("observer of channel {} blocked forever in {} although every sender handle is gone", c, b.in_call));
                 }
